@@ -16,6 +16,9 @@ package main
 import (
 	"fmt"
 	"go/ast"
+	"go/build"
+	"sort"
+	"strconv"
 	"go/parser"
 	"go/token"
 	"os"
@@ -204,6 +207,32 @@ func genLockedFile(g *gen) {
 			g.lfN("mutex_flags", "flags Mutex.Lock passes to OpenFile", v)
 		}
 		g.lfB("mutex_unlock_closes", "the unlock function returned by Mutex.Lock calls f.Close()", len(lfCalls(fd.Body, "f.Close")) == 1)
+		if msg, ok := lfEmptyPathPanic(fd, "mu.Path"); ok {
+			g.lfB("mutex_lock_panics_on_empty_path", "Mutex.Lock starts with if mu.Path == \"\" { panic(...) }", true)
+			g.emitBytesLit("mutex_lock_panic_msg", "panic value of Mutex.Lock on an empty Path", msg)
+		} else {
+			g.fail("Mutex.Lock: leading `if mu.Path == \"\" { panic(<string>) }` not found")
+		}
+	}
+	if fd := lfFunc(g, mu, mugo, "", "MutexAt"); fd != nil {
+		if msg, ok := lfEmptyPathPanic(fd, "path"); ok {
+			g.lfB("mutexat_panics_on_empty_path", "MutexAt starts with if path == \"\" { panic(...) }", true)
+			g.emitBytesLit("mutexat_panic_msg", "panic value of MutexAt(\"\")", msg)
+		} else {
+			g.fail("MutexAt: leading `if path == \"\" { panic(<string>) }` not found")
+		}
+	}
+	if fd := lfFunc(g, mu, mugo, "Mutex", "String"); fd != nil {
+		cs := lfCalls(fd.Body, "fmt.Sprintf")
+		if len(cs) == 1 && len(cs[0].Args) == 2 {
+			if s, ok := g.str(cs[0].Args[0]); ok && lfSel(cs[0].Args[1]) == "mu.Path" {
+				g.emitBytesLit("mutex_string_format", "format of Mutex.String, applied to mu.Path", s)
+			} else {
+				g.fail("Mutex.String: not fmt.Sprintf(<literal>, mu.Path)")
+			}
+		} else {
+			g.fail("Mutex.String: not a single fmt.Sprintf(format, mu.Path)")
+		}
 	}
 
 	// ---- lockedfile_filelock.go
@@ -224,6 +253,86 @@ func genLockedFile(g *gen) {
 
 	// ---- internal/filelock
 	genFilelock(g)
+	genBackend(g)
+}
+
+// genBackend asserts, with the build constraints of the platform the check runs on, which
+// files make up the two packages: the flock(2) back end (filelock_unix.go) and the
+// separate-lock-call openFile (lockedfile_filelock.go).  Any other selection (fcntl, "other",
+// plan9, windows, or a new file) means the model no longer describes what is compiled.
+func genBackend(g *gen) {
+	matched := func(rel string) []string {
+		dir := filepath.Join(g.repo, rel)
+		ents, err := os.ReadDir(dir)
+		if err != nil {
+			g.fail("cannot read %s: %v", rel, err)
+			return nil
+		}
+		var out []string
+		for _, e := range ents {
+			n := e.Name()
+			if e.IsDir() || !strings.HasSuffix(n, ".go") || strings.HasSuffix(n, "_test.go") {
+				continue
+			}
+			ok, err := build.Default.MatchFile(dir, n)
+			if err != nil {
+				g.fail("%s/%s: %v", rel, n, err)
+				continue
+			}
+			if ok {
+				out = append(out, n)
+			}
+		}
+		sort.Strings(out)
+		return out
+	}
+	check := func(coq, rel string, want []string) {
+		got := matched(rel)
+		if strings.Join(got, " ") != strings.Join(want, " ") {
+			g.fail("%s: files compiled on %s/%s are %v, the model is written for %v", rel, build.Default.GOOS, build.Default.GOARCH, got, want)
+			return
+		}
+		g.emitBytesList(coq, "files of "+rel+" compiled on this platform ("+build.Default.GOOS+"/"+build.Default.GOARCH+")", got)
+	}
+	check("filelock_backend_files", "lockedfile/internal/filelock", []string{"filelock.go", "filelock_unix.go"})
+	check("lockedfile_files", "lockedfile", []string{"lockedfile.go", "lockedfile_filelock.go", "mutex.go"})
+	// and the back end really is flock(2)
+	uf := lfParse(g, "lockedfile/internal/filelock/filelock_unix.go")
+	if fd := lfFunc(g, uf, "filelock_unix.go", "", "lock"); fd != nil {
+		g.lfB("filelock_backend_is_flock", "the compiled back end locks with syscall.Flock", len(lfCalls(fd.Body, "syscall.Flock")) == 1 && len(lfCalls(fd.Body, "syscall.FcntlFlock")) == 0)
+	}
+}
+
+// lfEmptyPathPanic: the function begins with `if <what> == "" { panic("msg") }`; returns msg.
+func lfEmptyPathPanic(fd *ast.FuncDecl, what string) (string, bool) {
+	if len(fd.Body.List) == 0 {
+		return "", false
+	}
+	is, ok := fd.Body.List[0].(*ast.IfStmt)
+	if !ok || is.Init != nil || len(is.Body.List) != 1 {
+		return "", false
+	}
+	c, ok := is.Cond.(*ast.BinaryExpr)
+	if !ok || c.Op != token.EQL || lfSel(c.X) != what {
+		return "", false
+	}
+	if l, ok := c.Y.(*ast.BasicLit); !ok || l.Value != `""` {
+		return "", false
+	}
+	es, ok := is.Body.List[0].(*ast.ExprStmt)
+	if !ok {
+		return "", false
+	}
+	call, ok := es.X.(*ast.CallExpr)
+	if !ok || lfSel(call.Fun) != "panic" || len(call.Args) != 1 {
+		return "", false
+	}
+	l, ok := call.Args[0].(*ast.BasicLit)
+	if !ok || l.Kind != token.STRING {
+		return "", false
+	}
+	s, err := strconv.Unquote(l.Value)
+	return s, err == nil
 }
 
 func lfHasDeferClose(fd *ast.FuncDecl) bool {
